@@ -3,7 +3,10 @@ package cluster
 import (
 	"context"
 	"errors"
+	"math"
 	"time"
+
+	"github.com/megaease/easegress/pkg/option"
 
 	"go.etcd.io/etcd/api/v3/etcdserverpb"
 	"go.etcd.io/etcd/api/v3/mvccpb"
@@ -113,7 +116,14 @@ func (vEtcdKV) Get(ctx context.Context, key string, opts ...clientv3.OpOption) (
 	op := clientv3.OpGet(key, opts...)
 	lo, hi := string(op.KeyBytes()), string(op.RangeBytes())
 	content := map[string]vKVSnap{}
-	if rev := op.Rev(); rev > 0 && rev < vRevision {
+	rev := op.Rev()
+	// etcd contract: a SERIALIZABLE read is answered from the local state of whichever member
+	// the client happens to talk to - a member that lags behind answers with an older content
+	// (linearizable reads, the default, never do)
+	if op.IsSerializable() && rev == 0 && vRevision > 1 && verifBool("serializable-read-answered-by-a-lagging-member") {
+		rev = vRevision - 1
+	}
+	if rev > 0 && rev < vRevision {
 		r := rev
 		for r > 0 {
 			if h, ok := vHistory[r]; ok {
@@ -158,6 +168,32 @@ func (vEtcdKV) Txn(ctx context.Context) clientv3.Txn {
 
 func vRequestContext(c *cluster) (context.Context, context.CancelFunc) {
 	return context.Background(), func() {}
+}
+
+// ---- the client the cluster builds ----------------------------------------------------------
+// A pull is ONE read that carries the whole content of the prefix, so convergence "for every
+// content" needs a client that accepts whatever the store can hold: the etcd client's own
+// default (MaxCallRecvMsgSize 0 = math.MaxInt32). In particular the limit on what one WRITE
+// may carry (cluster.max-call-send-msg-size) must not bound what a read may return.
+var vClientConfig *clientv3.Config
+
+func vNewClient(cfg clientv3.Config) (*clientv3.Client, error) {
+	vClientConfig = &cfg
+	return &clientv3.Client{KV: vEtcdKV{}}, nil
+}
+
+func verifC19_ClientReadLimit() {
+	opt := &option.Options{}
+	opt.Cluster.MaxCallSendMsgSize = int(verifInt("max-call-send-msg-size", 1, 1<<30))
+	opt.Cluster.InitialCluster = map[string]string{"m1": "http://127.0.0.1:2380"}
+	c := &cluster{opt: opt, requestTimeout: time.Second}
+	cl, err := c.getClient()
+	verifAssert(err == nil && cl != nil && vClientConfig != nil, "client-is-built")
+	verifAssert(vClientConfig.MaxCallSendMsgSize == opt.Cluster.MaxCallSendMsgSize, "write-limit-is-the-configured-one")
+	verifAssert(vClientConfig.MaxCallRecvMsgSize == 0 || vClientConfig.MaxCallRecvMsgSize >= math.MaxInt32,
+		"reads-are-not-bounded-below-what-the-store-may-hold")
+	cl2, _ := c.getClient()
+	verifAssert(cl2 == cl, "one-client-per-cluster-handle")
 }
 
 func vCluster() *cluster {
@@ -461,7 +497,7 @@ func verifC19_SlowConsumer() {
 		final = vals[i%3]
 		vPut("/p/a", final)
 		vWatchCh <- clientv3.WatchResponse{Header: etcdserverpb.ResponseHeader{Revision: vRevision}, Events: []*clientv3.Event{{}}} // every write is announced
-		verifQuiesce()                       // and the syncer gets time to pull (or blocks on the full channel)
+		verifQuiesce()                                                                                                              // and the syncer gets time to pull (or blocks on the full channel)
 	}
 	// the consumer wakes up and drains, giving the syncer time after every receive
 	last := ""
